@@ -222,6 +222,7 @@ def install():
                 lp["statuses"] = CAP["solves"][n0:]
                 CAP["lps"].append(lp)
             CAP["interp"].append(interp_obs(r, rnd, title))
+            CAP.setdefault("interp_objs", []).append(r)
         return r
 
     ScenarioRunner.run_optimizer = w_run
@@ -387,6 +388,13 @@ def fill_rec(rec, cap, txt, job):
     rec["solves"] = cap["solves"]
     rec["lps"] = cap["lps"]
     rec["interp"] = cap["interp"]
+    # the headline as it stands when the whole run is over (what the caller is left with), next to the one at interpretation time
+    for ob, o in zip(cap["interp"], cap.get("interp_objs", [])):
+        try:
+            ob["pf_at_interpretation"] = ob["pf"]
+            ob["pf"] = float(o.percent_people_fed)
+        except BaseException:
+            pass
     rec["validators"] = cap["validators"]
     rec["kcals_per_head"] = cap.get("kcals_per_head")
     for k in ("fillmin", "retime", "bump"):
